@@ -131,6 +131,32 @@ func c06Case(c *core.Ctx, idx int) {
 		if out != nil {
 			reuse = out
 		}
+		// the same variable, changed where it is (same addresses, same backing arrays), marshalled
+		// again into a non-nil buffer: the result depends on the value alone, not on what was
+		// marshalled from these addresses before
+		if v.CanAddr() && !multi {
+			mutateInPlace(v, &gen.VG{R: rv, C: tc.cfg, Budget: 100}, 0)
+			// the call that could see stale state comes first: nothing else is sized or marshalled in between
+			first, ferr, fpn := marshal(tc.p, reuse[:0], ptrTo(v))
+			fresh := model.DeepCopy(v)
+			want, err, pn := marshal(tc.p, nil, ptrTo(fresh))
+			if err == nil && pn == "" && !model.HasMultiMap(v) {
+				if ferr != nil || fpn != "" || !bytes.Equal(first, want) {
+					rec.Violation("stale-after-mutation", fmt.Sprintf("after changing the value in place, Marshal into the re-used buffer gives %x, a fresh copy of the same value gives %x (%v %s) %s\n  value now %s", head(first, 80), head(want, 80), ferr, trunc1(fpn), desc(), model.Show(v)), caseExtra(tc, v, want))
+					return
+				}
+				for k, buf := range [][]byte{append(make([]byte, 0, 4), 0xAB, 0xCD), nil} {
+					got, err, pn := marshal(tc.p, buf, ptrTo(v))
+					rec.Eval(1)
+					pre := len(buf)
+					if err != nil || pn != "" || len(got) < pre || !bytes.Equal(got[pre:], want) {
+						rec.Violation("stale-after-mutation", fmt.Sprintf("after changing the value in place, Marshal into buffer shape %d gives %x, a fresh copy of the same value gives %x (%v %s) %s\n  value now %s", k, head(got, 80), head(want, 80), err, trunc1(pn), desc(), model.Show(v)), caseExtra(tc, v, want))
+						return
+					}
+				}
+				rec.Count("in_place_mutations", 1)
+			}
+		}
 		if rec.WantSample() && len(ref) > 2 && len(ref) < 60 {
 			rec.Sample(map[string]any{"config": tc.name, "type": typeString(tc.typ), "value": model.Show(v), "bytes": fmt.Sprintf("%x", ref), "prefixes": "len 0/1/17/4096 x cap len, len+1, len+n+64"})
 		}
